@@ -295,7 +295,13 @@ def c022(ctx):
         ctx.must_pass(R, f, "File::sync_all", sy)
         ctx.must_pass(R, f, "BufWriter::flush", fl)
         # the sync is the last thing that touches the file: everything written -- the final block too -- is written before it
-        wr = P.call_points(f, r"StackPacker.*::stream$|::flush_block$|std::io::Write::(write|write_all)$|as std::io::Write>::(write|write_all|flush)$")
+        WR = r"StackPacker.*::stream$|buffertk::Packable::stream$|std::io::Write::(write|write_all)$|as std::io::Write>::(write|write_all|flush)$"
+        wr = P.call_points(f, WR)
+        # ... and the calls to functions of the crate that write (SstBuilder::flush_block, the block writer nested in seal), whatever they are named
+        for b_, t_ in f.calls():
+            g_ = ctx.prog.fns.get(t_.get("callee") or "")
+            if g_ is not None and g_.crate == "sst" and g_ is not f and P.call_points(g_, WR):
+                wr.append(P.term_pt(f, b_.idx))
         ctx.floor(R, "seal: writes to the output", len(wr), 3)
         for pt in sy:
             q = P.reach(f, P.after(f, pt), wr)
